@@ -49,7 +49,7 @@ PANIC_TABLE = {
     ("<darling_core::error::kind::ErrorKind as core::fmt::Display>::fmt", "panic"): dict(
         max=1, scope="runtime", who="nonexhaustive-never-built", guard=[r"discr\(self\)=__NonExhaustive"], why="variant __NonExhaustive is never constructed"),
     ("<darling_core::error::kind::ErrorKind as core::fmt::Display>::fmt", "index"): dict(
-        max=1, scope="runtime", guard=[r"Eq\(len\(\(self as Multiple\)\.0\), 1_usize\)=True"], why="items[0] under items.len() == 1"),
+        max=1, scope="runtime", guard=[r"^len\(\(self as Multiple\)\.0\)=1$"], why="items[0] under items.len() == 1"),
     ("darling_core::error::kind::did_you_mean", "option-unwrap"): dict(
         max=1, scope="runtime", guard=[r"is_some\(_\d+\)=True"], why="candidate.unwrap() on the is_none()=false edge of the ||"),
     ("darling_core::error::Error::multiple", "option-unwrap"): dict(max=1, scope="runtime", guard=[r"len\(a1\)=1$"], why="pop().expect() under len == 1"),
@@ -66,7 +66,7 @@ PANIC_TABLE = {
     ("<darling_core::error::Accumulator as core::ops::drop::Drop>::drop", "panic"): dict(
         max=2, scope="runtime", guard=[r"panicking\(\)=False", r"is_some\(self\.0\)=True"], why="the drop bomb itself; subject of the T rule"),
     ("<proc_macro2::Ident as darling_core::from_meta::KeyFromPath>::from_path", "index"): dict(
-        max=2, scope="runtime", guard=[r"Eq\(len\(a1\.segments\), 1_usize\)=True"], why="segments[0] under segments.len() == 1"),
+        max=2, scope="runtime", guard=[r"^len\(a1\.segments\)=1$"], why="segments[0] under segments.len() == 1"),
     ("darling_core::options::core::Core::as_codegen_default::{closure#0}", "panic"): dict(
         max=1, scope="derive", who="inherit-only-in-field", guard=[r"discr\(a2\)=Inherit"],
         why="DefaultExpression::Inherit is constructed only in InputField::with_inherited"),
@@ -257,12 +257,19 @@ ERROR_DROP_TABLE = {
     ("darling_core::error::Error::multiple", "alloc::vec::Vec<darling_core::error::Error>"): "the vector after pop() of its only element / the empty vector before panic",
     ("darling_core::error::Accumulator::finish_with", "alloc::vec::Vec<darling_core::error::Error>"): "the empty vector on the Ok path (is_empty()=true)",
     ("darling_core::error::<impl core::convert::From<darling_core::error::Error> for syn::error::Error>::from", "core::iter::adapters::map::Map<darling_core::error::IntoIter"): "the exhausted iterator after the combine loop",
-    ("<core::result::Result<T, syn::attr::Meta> as darling_core::from_meta::FromMeta>::from_meta::{closure#0}", "darling_core::error::Error"): "Result<T, Meta> deliberately replaces the error by the original item (C12)",
+    # rows name a function; its closures are covered by the same row
+    ("<core::result::Result<T, syn::attr::Meta> as darling_core::from_meta::FromMeta>::from_meta", "darling_core::error::Error"): "Result<T, Meta> deliberately replaces the error by the original item (C12)",
+    ("<core::result::Result<T, syn::attr::Meta> as darling_core::from_meta::FromMeta>::from_meta", "core::result::Result<T, darling_core::error::Error>"): "Result<T, Meta> deliberately replaces the error by the original item (C12)",
 }
+
+
+def _row_fn(row_fn, key):
+    return key == row_fn or key.startswith(row_fn + "::{closure")
+
 
 DISCARDING = re.compile(r"^core::result::Result::<T, E>::(ok|unwrap_or|unwrap_or_else|unwrap_or_default|is_ok|is_err|or|or_else|map_or|map_or_else|iter|unwrap_err|expect_err|err)$")
 DISCARD_TABLE = {
-    ("<core::result::Result<T, syn::attr::Meta> as darling_core::from_meta::FromMeta>::from_meta", "core::result::Result::<T, E>::or_else"): "Result<T, Meta> deliberately replaces the error by the original item (C12)",
+    ("<core::result::Result<T, syn::attr::Meta> as darling_core::from_meta::FromMeta>::from_meta", "*"): "Result<T, Meta> deliberately replaces the error by the original item (C12)",
     ("<darling_core::util::flag::Flag as darling_core::from_meta::FromMeta>::from_meta", "core::result::Result::<T, E>::unwrap_err"): "extracts the error of <()>::from_meta to return it (not discarded)",
 }
 
@@ -279,7 +286,7 @@ def error_discipline(ctx, rule, bodies):
             n += 1
             key = None
             for (fn, typ), why in ERROR_DROP_TABLE.items():
-                if fn == b.key and ty.startswith(typ):
+                if _row_fn(fn, b.key) and ty.startswith(typ):
                     key = (fn, typ)
             ctx.ob(rule + ".drop", b.key, "drop " + ty[:80], key is not None,
                    "a value that may carry darling errors is dropped on a normal path (bb%d); table rows: %d" % (blk, len(ERROR_DROP_TABLE)))
@@ -290,7 +297,7 @@ def error_discipline(ctx, rule, bodies):
             name = ci.get("resolved") or ci["fn"]
             if DISCARDING.match(name) and any(a == scan.ERR for a in ci.get("targs", [])[1:2]):
                 n += 1
-                ok = (b.key, name) in DISCARD_TABLE
+                ok = any(_row_fn(fn, b.key) and nm in ("*", name) for (fn, nm) in DISCARD_TABLE)
                 ctx.ob(rule + ".discard", b.key, name, ok, "error-discarding adapter on Result<_, darling::Error>")
     return n
 
